@@ -35,6 +35,15 @@ structure ColDef where
   pk : Bool
   /-- `Column(index=True)`: the `Table()` constructor makes an index `ix_<table>_<col>` -/
   index : Bool := false
+  /-- `Column(unique=True)` given to `add_column`: `toimpl.add_column` forwards the column's unnamed UniqueConstraint
+      to `add_constraint`, which rejects it ("Constraint must have a name") -/
+  unique : Bool := false
+  /-- generated column (`Computed(...)` / `GENERATED ALWAYS AS (expr)`): the expression text, an opaque token -/
+  computed : Option String := none
+  /-- `STORED` (persisted) or `VIRTUAL` -/
+  persisted : Bool := false
+  /-- column names the generating expression reads (SQLite rejects `CREATE TABLE` when one is missing) -/
+  computedMentions : List String := []
   deriving DecidableEq, Repr, Inhabited
 
 inductive CmpOp where
@@ -114,6 +123,9 @@ inductive BatchOp where
       `existing_type=` a schema type (Boolean / Enum with `create_constraint=True`) whose CHECK constraint is
       called `name`; the flags say whether that call renames the column, changes its type, or drops it -/
   | existingTypeConst (name : String) (renames retypes drops : Bool)
+  /-- `create_table_comment` / `drop_table_comment`: a no-op in `ApplyBatchImpl` (SQLite has no comments) that still
+      counts as an operation for `requires_recreate_in_batch` -/
+  | tableComment
   deriving DecidableEq, Repr
 
 inductive Err where
@@ -123,6 +135,7 @@ inductive Err where
   -- SQLite
   | alreadyExists | noSuchColumn | noSuchTable | noSuchIndexDb | notNull | unique | check | addNotNull
   | duplicateColumn
+  | generatedColumn      -- SQLite: "error in generated column" (a generated column with a DEFAULT)
   | injected
   deriving DecidableEq, Repr
 
@@ -133,7 +146,7 @@ def Err.toString : Err → String
   | .alreadyExists => "alreadyExists" | .noSuchColumn => "noSuchColumn" | .noSuchTable => "noSuchTable"
   | .noSuchIndexDb => "noSuchIndexDb"
   | .notNull => "notNull" | .unique => "unique" | .check => "check" | .addNotNull => "addNotNull"
-  | .duplicateColumn => "duplicateColumn" | .injected => "injected"
+  | .duplicateColumn => "duplicateColumn" | .generatedColumn => "generatedColumn" | .injected => "injected"
 
 /-! ## association lists with Python `dict` semantics (insertion ordered) -/
 
